@@ -12,7 +12,7 @@ from pyvc import vc, spec
 from contracts import c06_units, container_transfer as CT, container_ops as CO, solutions as SOL, trackers as TR
 
 PID = 'C18'
-FUNCTIONS = ['Unit.convert_to_storage', 'Unit.convert_from_storage', 'Container._transfer', 'Container._add',
+FUNCTIONS = ['Config.__init__', 'Unit.convert_to_storage', 'Unit.convert_from_storage', 'Container._transfer', 'Container._add',
              'Container._self_add', 'Container.fill_to', 'Container.remove', 'Container.get_volume',
              'Container.get_concentration', 'Container.dilute', 'Container.create_solution',
              'Container.create_solution_from', 'Container.__init__', 'Recipe.get_substance_used',
